@@ -84,6 +84,20 @@ def run(ctx):
     # point recovery
     gl, gc = [], []
     xs = [0, 1, 2, P - 1, E.GX] + [rng.randrange(P) for _ in range(ctx.n(600, 60000))]
+    # x whose two roots are within a few units (resp. a few 2^64, 2^128 multiples) of p/2: the sign
+    # decision must look at every limb.  y = (p + k)/2 - i.e. +-k/2 - gives x^2 = (y^2 - 1)/(d y^2 - a).
+    near = 0
+    for k in list(range(1, 400, 2)) + [(1 << 64) + 1, (1 << 64) - 1, (1 << 65) + 1, (1 << 128) + 1, (1 << 128) - 1, (1 << 192) + 1]:
+        y = (P + k) // 2
+        y2 = y * y % P
+        den = (E.D * y2 - E.A) % P
+        if den == 0:
+            continue
+        x2 = (y2 - 1) * E.inv(den) % P
+        if E.legendre(x2) == 1:
+            xs.append(E.sqrt(x2))
+            near += 1
+    ctx.extra["x_with_roots_near_half"] = near
     for x in xs:
         for b in (0, 1):
             gl.append("gpx %x %d" % (x, b))
